@@ -6,9 +6,10 @@ D=/verif/seeded/$N
 cd "$WT"
 DEMO=$(ls demo_*.py | head -1)
 PYTHONPATH=$WT/src timeout 1200 /venv/bin/python $DEMO > "$D/demo_with_change.out" 2>&1; A=$?
-git stash -q
+# (no git stash: the stash is shared between all worktrees of a repository)
+git apply -R "$D/patch.diff"
 PYTHONPATH=$WT/src timeout 1200 /venv/bin/python $DEMO > "$D/demo_without_change.out" 2>&1; B=$?
-git stash pop -q
+git apply "$D/patch.diff"
 echo "demo with change exit=$A ; without change exit=$B"
 PYTHONPATH=$WT/src /venv/bin/python -m pytest -q -p no:cacheprovider --timeout=900 --continue-on-collection-errors -n $J --dist loadfile tests --junitxml=/tmp/suite/$N.xml > /tmp/suite/$N.log 2>&1
 tail -1 /tmp/suite/$N.log
